@@ -33,8 +33,13 @@ const c08Limit = 60 * time.Second
 func c08Subst(args []string, book, log string) []string {
 	dir := filepath.Join(vScratchDir(), "c08-dir")
 	_ = os.MkdirAll(dir, 0o755)
+	loop := filepath.Join(vScratchDir(), "c08-loop") // a symbolic link that points at itself
+	if _, err := os.Lstat(loop); err != nil {
+		_ = os.Symlink("c08-loop", loop)
+	}
 	out := make([]string, len(args))
 	for i, a := range args {
+		a = strings.ReplaceAll(a, "@LOOP@", loop)
 		a = strings.ReplaceAll(a, "@BOOK@", book)
 		a = strings.ReplaceAll(a, "@LOG@", log)
 		a = strings.ReplaceAll(a, "@DIR@", dir)
@@ -147,7 +152,7 @@ func c08MutateLines(t *rapid.T, text string, isLog bool, muts *[]string) []byte 
 	// names), the others get 1-6 mutations
 	n := []int{0, 0, 0, 1, 1, 2, 3, 6}[rapid.IntRange(0, 7).Draw(t, "nmut")]
 	for i := 0; i < n; i++ {
-		kind := rapid.IntRange(0, 26).Draw(t, "mut")
+		kind := rapid.IntRange(0, 27).Draw(t, "mut")
 		pick := func() int {
 			if len(lines) == 0 {
 				lines = append(lines, "")
@@ -280,6 +285,21 @@ func c08MutateLines(t *rapid.T, text string, isLog bool, muts *[]string) []byte 
 					lines = append(lines, fmt.Sprintf("many%d:\n", j), "  x: 1\n")
 				}
 			}
+		case 27:
+			name = "comb-of-categories"
+			// category paths that fork on every one of 33 .. 120 levels (c1/x, c1/c2/x, ...): deeper than any table of
+			// indentations
+			depth := []int{33, 34, 64, 65, 120}[rapid.IntRange(0, 4).Draw(t, "combdepth")]
+			if isLog {
+				lines = append(lines, "2021/01/05:\n")
+			} else {
+				lines = append(lines, "comb:\n")
+			}
+			path := ""
+			for j := 1; j <= depth; j++ {
+				path += fmt.Sprintf("c%d/", j)
+				lines = append(lines, fmt.Sprintf("  %sx: %d\n", path, j%5+1))
+			}
 		case 25:
 			name = "heading-date-variant"
 			// a heading that almost is a date: one field out of range, of another width, in other digits, padded
@@ -330,7 +350,9 @@ func genC08Args(t *rapid.T, s vScenario) ([]string, map[string]string) {
 		if c08Healthy {
 			return def
 		}
-		switch rapid.IntRange(0, 11).Draw(t, label) {
+		switch rapid.IntRange(0, 13).Draw(t, label) {
+		case 12:
+			return []string{def + "/x", "@LOOP@", "@DIR@/" + strings.Repeat("n", 300)}[rapid.IntRange(0, 2).Draw(t, label+".odd")]
 		case 0:
 			return "@MISSING@"
 		case 1:
@@ -400,7 +422,9 @@ func genC08Args(t *rapid.T, s vScenario) ([]string, map[string]string) {
 		g = append(g, "--no-color")
 	}
 	if !c08Healthy && rapid.IntRange(0, 9).Draw(t, "config") == 0 {
-		g = append(g, "--config", []string{"@MISSING@", "@DIR@", "@BOOK@", "/dev/null", ""}[rapid.IntRange(0, 4).Draw(t, "configv")])
+		// also paths whose stat fails for another reason than "does not exist": through a regular file, too long, a dangling
+		// or self-referring link is made by the checker under the name @LOOP@
+		g = append(g, "--config", []string{"@MISSING@", "@DIR@", "@BOOK@", "/dev/null", "", "@LOG@/config", "@BOOK@/a/b", "@DIR@/" + strings.Repeat("n", 300), strings.Repeat("p/", 3000) + "x", "@LOOP@", "@LOOP@/x"}[rapid.IntRange(0, 10).Draw(t, "configv")])
 	}
 	if !c08Healthy && rapid.IntRange(0, 19).Draw(t, "unknown") == 0 {
 		g = append(g, []string{"--nonsense", "-z", "--", "-", "--begin"}[rapid.IntRange(0, 4).Draw(t, "unknownv")])
